@@ -244,6 +244,13 @@ pub fn gen_func(
             let n = if p.chance(1, 4) { 16 * (9 + p.below(22)) } else { 16 * (1 + p.below(8)) };
             insns.push(a64(0xa980_0000 | (imm7(-(n as i64)) << 15) | (30 << 10) | (31 << 5) | 29, Eff::StpFpLrPre(n)));
             insns.push(a64(0x9100_03fd, Eff::AddFpSp(0))); // mov x29, sp
+            // large or variable frames: the locals are allocated after the frame record is set up
+            if p.chance(1, 3) {
+                let big = p.chance(1, 4);
+                let locals = 16 * (1 + p.below(if big { 255 } else { 12 }));
+                insns.push(a64(0xd100_03ff | ((locals as u32) << 10), Eff::SubSp(locals)));
+                epilogue.push(a64(0x9100_03ff | ((locals as u32) << 10), Eff::AddSp(locals)));
+            }
             epilogue.push(a64(0xa8c0_0000 | (imm7(n as i64) << 15) | (30 << 10) | (31 << 5) | 29, Eff::LdpFpLrPost(n)));
             if pac {
                 epilogue.push(a64(0xd50323bf, Eff::Auth)); // autiasp
@@ -394,7 +401,11 @@ pub fn compute_rows(arch: Arch, f: &Func) -> Vec<RowSpec> {
                             ra_rule = RR::Offset(-cfa_off + 8);
                         }
                     }
-                    Eff::SubSp(n) => cfa_off += n as i64,
+                    Eff::SubSp(n) => {
+                        if cfa_reg == DReg::Sp {
+                            cfa_off += n as i64
+                        }
+                    }
                     Eff::StpFpLrOff(k) => {
                         fp_rule = RR::Offset(-cfa_off + k as i64);
                         if !f.is_root {
@@ -425,7 +436,11 @@ pub fn compute_rows(arch: Arch, f: &Func) -> Vec<RowSpec> {
                             ra_rule = RR::Same;
                         }
                     }
-                    Eff::AddSp(n) => cfa_off -= n as i64,
+                    Eff::AddSp(n) => {
+                        if cfa_reg == DReg::Sp {
+                            cfa_off -= n as i64
+                        }
+                    }
                     _ => {}
                 }
             }
